@@ -249,10 +249,12 @@ impl OpenPartitionIndex {
         let records_offset = 4 + 8 + 8 + mphf_bytes.len() as u64;
 
         // Write the file data and values data
+        file.set_len(0)?;
         file.seek(std::io::SeekFrom::Start(0))?;
         file.write_all(&file_data)?;
         file.write_all(&value_data)?;
         file.flush()?;
+        crate::bucket::finish_index_file(file)?;
 
         Ok((mphf, records_offset))
     }
